@@ -1011,6 +1011,9 @@ TRANSLATOR_MODULES.append("rs2lean_gensparse")
 GEN_SRC.update({n: gen_src(n) for n in ("SrcFenwickNew", "SrcLcskpp")})
 EXTRACTORS["C19"] = EXTRACTORS["C19"] + [GEN_SRC["SrcFenwick"], GEN_SRC["SrcFenwickNew"], GEN_SRC["SrcLcskpp"]]
 
+GEN_SRC.update({n: gen_src(n) for n in ("SrcSdpkpp",)})
+EXTRACTORS["C19"] = EXTRACTORS["C19"] + [GEN_SRC["SrcSdpkpp"]]
+
 # additive registrations (kept outside the dict literal so that concurrent edits merge)
 EXTRACTORS["C03"] = EXTRACTORS["C03"] + [gen_saiswidth]
 THEOREMS["SaisWidth"] = ["RbV.Thm.C03.sais_width_arms_fit", "RbV.Thm.C03.sais_reduced_width_fits",
